@@ -111,17 +111,20 @@ theorem loadLabel_enc (l : Lbl) (m cap : Nat) (pfx rest : List Bool) (hm : m < 2
 
 /-! ### mapInner on the cell tree of a valid dictionary -/
 
-/-- hypothesis on the value codec: the decoder reads back what `pay` serialises (bits and refs at the end of a leaf) -/
-def DecodesPayload {V : Type} (C : Codec V) (pay : V → List Bool × List Cell) : Prop :=
-  ∀ v, C.dec (pay v).1 (pay v).2 = .ok v
+/-- hypothesis on the value codec for one value: the decoder reads back what `pay v` serialises (bits and refs at the end
+of a leaf) -/
+def DecodesValue {V : Type} (C : Codec V) (pay : V → List Bool × List Cell) (v : V) : Prop :=
+  C.dec (pay v).1 (pay v).2 = .ok v
 
-theorem mapInner_toCell {V : Type} (C : Codec V) (pay : V → List Bool × List Cell) (hdec : DecodesPayload C pay)
+theorem mapInner_toCell {V : Type} (C : Codec V) (pay : V → List Bool × List Cell)
     (n : Nat) (hn : n < 2 ^ 64) (t : HTree V) :
+    (∀ kv ∈ t.meaning, DecodesValue C pay kv.2) →
     ∀ (m : Nat) (pfx : Key) (fuel : Nat), t.Valid m → pfx.length + m = n → m < fuel →
       mapInner C n fuel (m : Int) (t.toCell pay m) pfx = .ok (t.meaning.map fun kv => (pfx ++ kv.1, kv.2)) := by
   induction t with
   | leaf l v =>
-    intro m pfx fuel hv hlen hf
+    intro hdec m pfx fuel hv hlen hf
+    have hdv : C.dec (pay v).1 (pay v).2 = .ok v := hdec (l.bits, v) (by simp [HTree.meaning])
     obtain ⟨f, rfl⟩ : ∃ f, fuel = f + 1 := ⟨fuel - 1, by omega⟩
     simp only [HTree.Valid] at hv
     have hm : m < 2 ^ 64 := by omega
@@ -130,9 +133,15 @@ theorem mapInner_toCell {V : Type} (C : Codec V) (pay : V → List Bool × List 
     have h1 : ¬ ((pfx ++ l.bits).length < n) := by simp; omega
     have ht1 : ¬ ((0 : Nat) = tyPruned) := by decide
     have ht2 : ¬ ((0 : Nat) = tyLibrary) := by decide
-    simp only [ht1, ht2, h1, if_false, hdec v, HTree.meaning, List.map_cons, List.map_nil]
+    simp only [ht1, ht2, h1, if_false, hdv, HTree.meaning, List.map_cons, List.map_nil]
   | fork l lo hi ihlo ihhi =>
-    intro m pfx fuel hv hlen hf
+    intro hdec m pfx fuel hv hlen hf
+    have hdlo : ∀ kv ∈ lo.meaning, DecodesValue C pay kv.2 := fun kv hkv =>
+      hdec (l.bits ++ false :: kv.1, kv.2) (by
+        simp only [HTree.meaning, List.mem_append, List.mem_map]; exact Or.inl ⟨kv, hkv, rfl⟩)
+    have hdhi : ∀ kv ∈ hi.meaning, DecodesValue C pay kv.2 := fun kv hkv =>
+      hdec (l.bits ++ true :: kv.1, kv.2) (by
+        simp only [HTree.meaning, List.mem_append, List.mem_map]; exact Or.inr ⟨kv, hkv, rfl⟩)
     obtain ⟨f, rfl⟩ : ∃ f, fuel = f + 1 := ⟨fuel - 1, by omega⟩
     simp only [HTree.Valid] at hv
     obtain ⟨hl, hvlo, hvhi⟩ := hv
@@ -144,8 +153,8 @@ theorem mapInner_toCell {V : Type} (C : Codec V) (pay : V → List Bool × List 
     have ht1 : ¬ ((0 : Nat) = tyPruned) := by decide
     have hleft : (m : Int) - (1 + (l.bits.length : Int)) = ((m - l.bits.length - 1 : Nat) : Int) := by omega
     simp only [ht1, h1, if_true, if_false, hleft]
-    rw [ihlo (m - l.bits.length - 1) (pfx ++ l.bits ++ [false]) f hvlo (by simp; omega) (by omega)]
-    rw [ihhi (m - l.bits.length - 1) (pfx ++ l.bits ++ [true]) f hvhi (by simp; omega) (by omega)]
+    rw [ihlo hdlo (m - l.bits.length - 1) (pfx ++ l.bits ++ [false]) f hvlo (by simp; omega) (by omega)]
+    rw [ihhi hdhi (m - l.bits.length - 1) (pfx ++ l.bits ++ [true]) f hvhi (by simp; omega) (by omega)]
     simp [HTree.meaning, List.map_append, List.map_map, Function.comp_def, List.append_assoc]
 
 /-! ### the meaning of a valid tree: key width and ascending order -/
